@@ -8,7 +8,9 @@ cert.enc <id> <pub>            → ok <cert text>
 cert.dec <cert text>           → ok <id> <pub> | err
 legacy.dec <idhex text> <pubhex text> → ok <id> <pub> | err
 hex.enc <bytes>                → ok <text>
-fs.reset <fixed 0|1> <now>     → ok          (empty directory, no ops, no key table)
+fs.reset <fixed 0|1> <now> <bridge comment block> → ok   (empty directory, no ops, no key table)
+fs.startlim <k> <args as fs.start> → as fs.start, every file write under a size limit of k bytes
+fs.writelim <k> <name> <content> → ok|err ; <ops>   (atomicfile.WriteFile under the limit)
 fs.file <name> <content>       → ok          (initial directory entry)
 fs.pub <priv> <pub>            → ok          (key table: public key of a private key)
 fs.op T|C|F|U|M <name> | W <name> <data> | R <a> <b>  → ok   (append a traced system call)
@@ -31,8 +33,9 @@ structure St where
   dir : Dir := []
   ops : List Op := []
   pubs : List (Bytes × Bytes) := []
+  prefix_ : Bytes := []
 
-def St.cfg (s : St) : Cfg := ⟨s.fixed, fun p => (s.pubs.lookup p).getD []⟩
+def St.cfg (s : St) : Cfg := ⟨s.fixed, fun p => (s.pubs.lookup p).getD [], s.prefix_⟩
 
 def name? (h : String) : Option String := (unhex? h).map (fun b => String.ofList (b.map (fun c => Char.ofNat c.toNat)))
 def nameHex (n : String) : String := hex (ascii n)
@@ -128,10 +131,10 @@ def step (s : St) : List String → St × String
     match unhex? b with
     | some b => (s, "ok " ++ hex (Hex.encode b))
     | none => (s, "bad-op")
-  | ["fs.reset", f, now] =>
-    match now.toNat? with
-    | some n => ({ fixed := f == "1", now := n }, "ok")
-    | none => (s, "bad-op")
+  | ["fs.reset", f, now, pre] =>
+    match now.toNat?, unhex? pre with
+    | some n, some pre => ({ fixed := f == "1", now := n, prefix_ := pre }, "ok")
+    | _, _ => (s, "bad-op")
   | ["fs.file", n, c] =>
     match name? n, unhex? c with
     | some n, some c => ({ s with dir := set s.dir n c }, "ok")
@@ -179,6 +182,18 @@ def step (s : St) : List String → St × String
       let r := start s.cfg s.dir ⟨n, p, sd, iat⟩ ⟨fn, fp, fpub, fs, 0⟩
       (s, outcomeText s.cfg r.out ++ " ; " ++ opsText r.ops)
     | _, _, _, _, _, _, _, _ => (s, "bad-op")
+  | ["fs.startlim", k, n, p, sd, iat, fn, fp, fpub, fs] =>
+    match k.toNat?, optArg? n, optArg? p, optArg? sd, optArg? iat, unhex? fn, unhex? fp, unhex? fpub, unhex? fs with
+    | some k, some n, some p, some sd, some iat, some fn, some fp, some fpub, some fs =>
+      let r := startLim s.cfg k s.dir ⟨n, p, sd, iat⟩ ⟨fn, fp, fpub, fs, 0⟩
+      (s, outcomeText s.cfg r.out ++ " ; " ++ opsText r.ops)
+    | _, _, _, _, _, _, _, _, _ => (s, "bad-op")
+  | ["fs.writelim", k, n, c] =>
+    match k.toNat?, name? n, unhex? c with
+    | some k, some n, some c =>
+      let w := writeFileLim k n c
+      (s, (if w.2 then "ok" else "err") ++ " ; " ++ opsText w.1)
+    | _, _, _ => (s, "bad-op")
   | ["fs.final"] => (s, dirText (run s.dir s.ops))
   | ["fs.crash", k, j] =>
     match k.toNat?, j.toNat? with
